@@ -140,8 +140,9 @@ func (s *scanner) Length() (uint, error) {
 		}
 
 		length = uint(lex.End()) + 1
-		if lex.End() == s.dataSize {
-			length--
+		if lex.End() >= s.dataSize {
+			// Lexemes closed at the end of the data may end behind its last byte.
+			length = uint(s.dataSize)
 		}
 	}
 	for ; length > 0; length-- {
